@@ -219,10 +219,10 @@ class Cache1D:
         # CDF function because want this to be able to compute weight
         # for arbitrary mass functions
         weight_neu, err_neu = scipy.integrate.quad(sel_dist, 0, -smallest_gamma,
-                                                   args=params)
+                                                   args=(params,))
         # compute weight for the effectively lethal portion
         weight_del, err = scipy.integrate.quad(sel_dist, -largest_gamma, np.inf,
-                                               args=params)
+                                               args=(params,))
 
         fs += self.neu_spec*weight_neu
         fs += spectra[0]*weight_del
